@@ -2,7 +2,7 @@
 (* The statement's own algebra on the aggregate oracle: for every assignment of     *)
 (* content kinds to a 2 x 2 block (shard = first two cells).                          *)
 EXTENDS XlAggregates
-Kinds == {"I", "D", "N", "X", "S", "T", "F", "B", "E", "H"}
+Kinds == {"I", "D", "N", "Z", "X", "S", "T", "F", "B", "E", "H"}
 VARIABLES blk, ph
 Init == \E a \in Kinds, b \in Kinds : blk = <<a, b, "B", "B">> /\ ph = "shard"
 Next == ph = "shard" /\ ph' = "case" /\ \E c \in Kinds, d \in Kinds : blk' = <<blk[1], blk[2], c, d>>
